@@ -111,6 +111,9 @@ func indentObject(
 	prefix []byte,
 	indentBytes []byte,
 	escape bool) ([]byte, int64, error) {
+	if indentNum+1 > maxNestingDepth {
+		return nil, 0, errors.ErrExceededMaxDepth(src[cursor], cursor)
+	}
 	if src[cursor] == '{' {
 		dst = append(dst, '{')
 	} else {
@@ -175,6 +178,9 @@ func indentArray(
 	prefix []byte,
 	indentBytes []byte,
 	escape bool) ([]byte, int64, error) {
+	if indentNum+1 > maxNestingDepth {
+		return nil, 0, errors.ErrExceededMaxDepth(src[cursor], cursor)
+	}
 	if src[cursor] == '[' {
 		dst = append(dst, '[')
 	} else {
